@@ -5,6 +5,8 @@ MCEndsSmall == {NEGINF, 0, 5, POSINF}
 \* <<constrained type, position>>
 TargetsAll == { <<"INTEGER", "assignment">>, <<"INTEGER", "component">>, <<"INTEGER", "typeref">>, <<"INTEGER", "valref">>,
                 <<"INTEGER", "namednum">>, <<"INTEGER", "nnref">>,
+                \* the constraint written at a component whose type is a reference to an (unconstrained) type of that kind
+                <<"INTEGER", "refcomp">>, <<"OCTET STRING", "refcomp">>,
                 <<"OCTET STRING", "assignment">>, <<"OCTET STRING", "component">>,
                 <<"BIT STRING", "assignment">>, <<"BIT STRING", "component">>,
                 <<"IA5String", "assignment">>, <<"IA5String", "component">>, <<"IA5String", "typeref">>,
